@@ -195,6 +195,9 @@ def c20(tier):
     nl.nl4(P, C)
     # a table built by stacking is well-formed: the stacking order is one the number of tables supports
     vg.vg6(P, C)
+    # the operation is a function of its arguments and the table: no scratch kept between calls (two threads, two tables)
+    selftest.run(P, C, ('re1',))
+    dp.re1(P, C)
     return C.finish()
 
 
@@ -289,6 +292,9 @@ def c15(tier):
     cw.cw2(P, C, only=("splinetable_permute",))
     C.extra["units"] = sorted(P.units.keys())
     st.st1(P, C, only=('permuteDimensions',))
+    # the operation is a function of its arguments and the table: no scratch kept between calls (two threads, two tables)
+    selftest.run(P, C, ('re1',))
+    dp.re1(P, C)
     return C.finish()
 
 
@@ -452,6 +458,7 @@ def c10(tier):
     # the constrained solver gets the system exactly as assembled (it manages the symmetric/full views of the matrix itself)
     gw.gw5(P, C)
     sp.so1(P, C)
+    sp.so2(P, C)
     # "for any data": the solver's factor bookkeeping must not read moved or released CHOLMOD arrays on any path
     sp.sp1(P, C, floor=3)
     sp.sp2(P, C)
@@ -489,6 +496,7 @@ def c11(tier):
     sg.sg7(P, C)
     sg.sg8(P, C)
     sp.so1(P, C)
+    sp.so2(P, C)
     # the constrained set handed back to the solver is one job's list of clipped coordinates, not several jobs' concatenated
     mt.mt9(P, C)
     # anchored in modify_factor / recompute_factor: the factor-update path must not read moved or released CHOLMOD arrays
@@ -540,6 +548,9 @@ def c14(tier):
     st.st1(P, C, only=('convolve',))
     # 'all other dimensions are unchanged': the new knot field goes into the convolved dimension only
     uw.uw11(P, C)
+    # the operation is a function of its arguments and the table: no scratch kept between calls (two threads, two tables)
+    selftest.run(P, C, ('re1',))
+    dp.re1(P, C)
     return C.finish()
 
 
@@ -640,6 +651,9 @@ def c17(tier):
     # the C wrapper defines *result on every exit (a caller re-using its variable must not see a stale grid)
     cw.cw8(P, C)
     ge.ge9(P, C)
+    # the operation is a function of its arguments and the table: no scratch kept between calls (two threads, two tables)
+    selftest.run(P, C, ('re1',))
+    dp.re1(P, C)
     return C.finish()
 
 
